@@ -22,7 +22,8 @@
 (***************************************************************************)
 EXTENDS FxShapes
 
-Letters == {"i", "j", "k", "h"}
+Letters == {"i", "j", "k", "h"}               \* the letters the bounded family is enumerated over
+AllLetters == Letters \cup {"J"}                \* plus an upper-case letter used by injected strings (case matters to einsum)
 Ellipsis == "..."                    \* the ellipsis TOKEN
 DOT == "."
 Dots == <<DOT, DOT, DOT>>
@@ -145,7 +146,7 @@ Tokens(s) == IF s = <<>> THEN <<>>
 
 HasEll(toks) == \E p \in 1..Len(toks) : toks[p] = Ellipsis
 NLetters(toks) == Cardinality({p \in 1..Len(toks) : toks[p] # Ellipsis})
-WellFormedOperand(toks) == /\ \A p \in 1..Len(toks) : toks[p] \in Letters \cup {Ellipsis}
+WellFormedOperand(toks) == /\ \A p \in 1..Len(toks) : toks[p] \in AllLetters \cup {Ellipsis}
                            /\ Count(toks, Ellipsis) <= 1
 \* number of dimensions the ellipsis stands for in an operand of the given rank
 EllRank(toks, rank) == IF HasEll(toks) THEN rank - NLetters(toks) ELSE 0
@@ -263,7 +264,7 @@ AdjointVerdict(m0, ys, tl, tr, to, blocks, xs) ==
    s # t, both in the blocks, t exactly once in the output, s not in the output, and the leaf subscripts
    are the output subscripts with t replaced by s. *)
 Accepts(b, x, o) ==
-  \E s, t \in Letters :
+  \E s, t \in AllLetters :
      /\ s # t /\ Count(b, s) >= 1 /\ Count(b, t) >= 1
      /\ Count(o, t) = 1 /\ Count(o, s) = 0
      /\ x = [p \in 1..Len(o) |-> IF o[p] = t THEN s ELSE o[p]]
